@@ -71,17 +71,20 @@ class RequestChannelCommon(StreamHandler, Publisher, Subscription, Disposable, m
         elif self._received_complete and isinstance(frame, (PayloadFrame, ErrorFrame)):
             pass  # the receiving direction already terminated (completed, failed or cancelled): signal nothing more
         elif isinstance(frame, PayloadFrame):
-            if frame.flags_next:
-                self.remote_subscriber.on_next(payload_from_frame(frame),
-                                               is_complete=frame.flags_complete)
-            elif frame.flags_complete:
-                self.remote_subscriber.on_complete()
-
-            if frame.flags_complete:
-                self.mark_completed_and_finish(received=True)
+            try:
+                if frame.flags_next:
+                    self.remote_subscriber.on_next(payload_from_frame(frame),
+                                                   is_complete=frame.flags_complete)
+                elif frame.flags_complete:
+                    self.remote_subscriber.on_complete()
+            finally:  # the direction has terminated even if the subscriber raises
+                if frame.flags_complete:
+                    self.mark_completed_and_finish(received=True)
         elif isinstance(frame, ErrorFrame):
-            self.remote_subscriber.on_error(error_frame_to_exception(frame))
-            self.mark_completed_and_finish(received=True)
+            try:
+                self.remote_subscriber.on_error(error_frame_to_exception(frame))
+            finally:
+                self.mark_completed_and_finish(received=True)
 
     def dispose(self):
         if self.subscriber is not None and self.subscriber.subscription is not None:
